@@ -1082,9 +1082,11 @@ class Bits:
         """Overwrite with bs at pos."""
         assert 0 <= pos <= len(self)
         if bs is self:
-            # Just overwriting with self, so do nothing.
-            assert pos == 0
-            return
+            if pos == 0:
+                # Just overwriting with self, so do nothing.
+                return
+            # Overwriting with self somewhere else needs a copy of the original bits.
+            bs = self._copy()
         self._bitstore[pos: pos + len(bs)] = bs._bitstore
 
     def _delete(self, bits: int, pos: int, /) -> None:
